@@ -126,7 +126,8 @@ ObsTgt(o, c, t, op, arg, res, q) ==
             THEN V([o1 EXCEPT !.tF = @ \/ ~q], mustQ => q, "QuarantineNotSeen")
             ELSE o1
       o3 == V(o2, q => mayQ, "QuarantineWithoutVerdict")
-  IN V(o3, ~(c.kind = "remote" /\ q /\ op \in {"rcpt", "body", "bodyNA"} /\ res = "ok"),
+  \* the remote target refuses a flagged message for good (a transient failure is not a refusal)
+  IN V(o3, (c.kind = "remote" /\ q /\ op \in {"rcpt", "body", "bodyNA"}) => res = "perm",
        "RemoteAcceptedQuarantined")
 
 Fold(o, accepted) ==
